@@ -380,7 +380,7 @@ def reader_oracle(c, stats):
 
 
 PARTS = [
-    HypPart("write-read-write", lambda tier: rt_case(), rt_oracle, {"quick": 1500, "thorough": 12000}),
-    HypPart("reader", lambda tier: reader_case(), reader_oracle, {"quick": 1500, "thorough": 12000}),
+    HypPart("write-read-write", lambda tier: rt_case(), rt_oracle, {"quick": 3000, "thorough": 20000}),
+    HypPart("reader", lambda tier: reader_case(), reader_oracle, {"quick": 3000, "thorough": 20000}),
     FuzzPart("coverage-guided-reader", "reader", runs=5000),
 ]
